@@ -263,7 +263,8 @@ async fn flood(net: Net, seed: u64, corpus: String) {
     let nodes = oracle_universe(&mut rng, 12, false, None);
     let oracle = Arc::new(Mutex::new(OracleNet::new(nodes)));
     let addrs = oracle.lock().unwrap().addrs();
-    net.with(|n| n.faults.max_latency_ms = 50);
+    // every datagram of the bootstrap phase arrives twice, back to back
+    net.with(|n| { n.faults.max_latency_ms = 50; n.faults.dup_pct = 100; n.faults.dup_back_to_back = true; });
     net.add_scripted(&addrs, Box::new(oracle.clone()));
     let me: SocketAddr = v4(10, 0, 0, 1, 7000);
     let dht = start_node(&net, &NodeCfg { addr: me, id: Some(my_id), read_only: false, announce_port: None, nodes: addrs[..3].to_vec(), routers: vec![] });
@@ -271,6 +272,7 @@ async fn flood(net: Net, seed: u64, corpus: String) {
         net.log(json!({"ev":"End"}));
         return;
     }
+    net.with(|n| n.faults.dup_pct = 20);
     let data: Vec<Vec<u8>> = std::fs::read_to_string(&corpus).unwrap_or_default().lines()
         .map(|l| (0..l.len() / 2).filter_map(|i| u8::from_str_radix(&l[2 * i..2 * i + 2], 16).ok()).collect()).collect();
     let ih = rand_id(&mut rng);
